@@ -503,6 +503,7 @@ class Shrinker(object):
 
 
 Machine.isolate_shrink = False
+Machine.shrink_max_evals = 600
 
 
 # ---------------------------------------------------------------------------
@@ -661,7 +662,7 @@ def run_check(machine, tier, seed=None, runs=None, jobs=None):
     for key in sorted(groups, key=lambda k: (k[0], str(k[1]))):
         recs = groups[key]
         rec = min(recs, key=lambda r: (len(r["case"]["actions"]), r["i"]))
-        sh = Shrinker(machine, rec["case"], rec["viol"], open_known)
+        sh = Shrinker(machine, rec["case"], rec["viol"], open_known, max_evals=machine.shrink_max_evals)
         case, viol = sh.shrink()
         tag = "%d" % rec["seed"]
         path = write_replay(machine, case, viol, tag)
